@@ -48,6 +48,19 @@ def known_names() -> Set[str]:
   return _KNOWN
 
 
+def _module_is_helper_only(h) -> bool:
+  """The function lives in a module no rule knows anything about (neither the
+  module's name nor any of its functions): a helper module split off from the
+  code under analysis.  Its public-looking functions are treated like private
+  helpers of their callers."""
+  kn = known_names()
+  m = h.module
+  if m.name.rsplit('.', 1)[-1] in kn:
+    return False
+  return not any(f.name in kn and not f.name.startswith('__')
+                 for f in m.all_funcs if not f.is_lambda)
+
+
 def _own_nodes(fn):
   """Nodes of fn's body, not descending into nested defs / lambdas."""
   stack = list(fn.body)
@@ -145,7 +158,8 @@ def _returns_in_tail(stmts) -> bool:
   return True
 
 
-def eligible(h, generator: bool = False, nested_ok: bool = False) -> bool:
+def eligible(h, generator: bool = False, nested_ok: bool = False,
+             other_module: bool = False) -> bool:
   n = h.node
   if h.is_lambda or not isinstance(n, ast.FunctionDef):
     return False
@@ -158,7 +172,8 @@ def eligible(h, generator: bool = False, nested_ok: bool = False) -> bool:
     return False
   if h.name in known_names() or h.name.lstrip('_') in known_names():
     return False
-  if not h.name.startswith('_') and not nested_ok:
+  if not h.name.startswith('_') and not nested_ok and not (
+      other_module and _module_is_helper_only(h)):
     return False
   for x in _own_nodes(n):
     if isinstance(x, (ast.Await, ast.Global, ast.Nonlocal)):
@@ -309,6 +324,50 @@ def _fix(node, at):
 
 class Inliner:
 
+  def _requalify(self, nodes, h, scope) -> bool:
+    """Free global names of a body taken from another module are made to
+    resolve in the caller's module: same binding -> kept; a constant -> its
+    value; otherwise a synthetic import alias is added to the caller's module
+    table.  False if some name cannot be carried over."""
+    if h.module is scope.module:
+      return True
+    own = h.local_names()
+    m1, m2 = scope.module, h.module
+    for root in nodes:
+      for n in ast.walk(root):
+        if not (isinstance(n, ast.Name) and isinstance(n.ctx, ast.Load)):
+          continue
+        base = n.id.split('__')[0] if False else n.id
+        if base in own:
+          continue
+        try:
+          q2 = self.p.resolve(ast.Name(id=n.id, ctx=ast.Load()), h)
+          q1 = self.p.resolve(ast.Name(id=n.id, ctx=ast.Load()), scope)
+        except Exception:  # pylint: disable=broad-except
+          return False
+        if q1 == q2:
+          continue
+        if n.id in m2.assigns and isinstance(m2.assigns[n.id], ast.Constant):
+          n._const = m2.assigns[n.id]
+          continue
+        if q2 is None:
+          return False
+        alias = '_x_' + m2.name.replace('.', '_') + '_' + n.id
+        m1.imports.setdefault(alias, q2)
+        n.id = alias
+    # constants: replace in a second pass
+    class C(ast.NodeTransformer):
+
+      def visit_Name(self, node):
+        c = getattr(node, '_const', None)
+        if c is not None:
+          return ast.copy_location(copy.deepcopy(c), node)
+        return node
+
+    for i, root in enumerate(nodes):
+      nodes[i] = C().visit(root)
+    return True
+
   def __init__(self, project, callers=None):
     self.p = project
     self.callers = callers  # None: every function; else qualname prefixes
@@ -357,10 +416,13 @@ class Inliner:
     h = self.p.funcs.get(q) if q else None
     if h is not None and h.cls is not None:
       return None
-    if h is None or h is scope or not eligible(h, generator):
+    if h is None or h is scope or not eligible(
+        h, generator, other_module=h.module is not scope.module):
       return None
-    if h.module is not scope.module:
-      return None  # free names of the body resolve in the helper's module
+    if h.module is not scope.module and not (
+        h.module.name.startswith('fiddle._src.') and
+        scope.module.name.startswith('fiddle._src.')):
+      return None
     return h
 
   # ---- expression helpers
@@ -385,9 +447,12 @@ class Inliner:
         b = _bind(h, n)
         if b is None:
           return n
+        body_ = [copy.deepcopy(e)]
+        if not inl._requalify(body_, h, f):
+          return n
         inl.count += 1
         inl.sites.append(f'{f.qualname} <- {h.qualname}')
-        return _fix(_Subst(b).visit(copy.deepcopy(e)), n)
+        return _fix(_Subst(b).visit(body_[0]), n)
 
     return T().visit(node)
 
@@ -413,6 +478,8 @@ class Inliner:
     body = copy.deepcopy(_strip_doc(h.node.body))
     body = _tailify(body)
     if not _returns_in_tail(body):
+      return None
+    if not self._requalify(body, h, f):
       return None
     tag = '__' + h.name.strip('_')
     ren = {n: n + tag for n in _locals_of(h.node) | set(b)}
@@ -495,6 +562,8 @@ class Inliner:
       return None
     b = _bind(h, st.iter)
     if b is None:
+      return None
+    if not self._requalify(body, h, f):
       return None
     tag = '__' + h.name.strip('_')
     ren = {n: n + tag for n in _locals_of(h.node) | set(b)}
